@@ -139,6 +139,11 @@ func crashPoints(evs []Event, rng *rand.Rand, thorough bool, budget int, minEv i
 		for i := 0; i < budget; i++ {
 			r = append(r, pts[i*len(pts)/budget])
 		}
+		// the complete prefix is always among them: a call that was acknowledged without causing any disk write
+		// (a COMMIT that flushed nothing) can only be judged on it
+		if last := r[len(r)-1]; last.n != len(evs) || last.pat != "-" {
+			r[len(r)-1] = crashPoint{n: len(evs), pat: "-"}
+		}
 		pts = r
 	}
 	return pts
@@ -371,6 +376,14 @@ func refusedThenCommitScript(seed int64, wtmax uint64) ([]Op, int) {
 	focus := len(s.ops)
 	n := uint64(560+seed%40) * 4096
 	s.add(Op{Proc: "symlink", H: "root", Name: "big", Data: pat(n, 3)})
+	s.add(Op{Proc: "commit", H: fh})
+	s.add(Op{Proc: "getattr", H: fh})
+	// the same with the largest WRITE the server announces, unaligned and across the first index boundary of a fresh
+	// file (the most journal space one WRITE can need): it must be accepted, and whether it is or not, the COMMIT
+	// that follows makes the pending data durable
+	g := s.add(Op{Proc: "create", H: "root", Name: "g"})
+	s.add(Op{Proc: "write", H: fh, Off: 9000, Cnt: 5000, Stable: 0, Data: pat(5000, int(seed%100)+7)})
+	s.add(Op{Proc: "write", H: fmt.Sprintf("@%d", g), Off: 220*4096 + 7, Cnt: wtmax, Stable: 2, Data: pat(wtmax, 5)})
 	s.add(Op{Proc: "commit", H: fh})
 	s.add(Op{Proc: "getattr", H: fh})
 	return s.ops, focus
